@@ -21,19 +21,20 @@ def page_src(nodes):
     out = []
     for n in nodes:
         if n[0] == "print":
-            out.append("({{ x }},{{ a }},{{ b }},{{ i }})")
+            out.append("({{ x }},{{ a }},{{ b }},{{ i }},{{ d.v }})")
         elif n[0] == "with":
             out.append("{% with " + n[1] + "='" + n[2] + "' %}" + page_src(n[3]) + "{% endwith %}")
         elif n[0] == "for":
             out.append("{% for i in 'pq' %}" + page_src(n[1]) + "{% endfor %}")
         elif n[0] == "comp":
             head = "{% component 'show' x=" + n[1] + " %}"
-            out.append(head + ("" if n[2] is None else "{% fill 's' %}" + page_src(n[2]) + "{% endfill %}") + "{% endcomponent %}")
+            alias = " data='d'" if len(n) > 3 and n[3] else ""
+            out.append(head + ("" if n[2] is None else "{% fill 's'" + alias + " %}" + page_src(n[2]) + "{% endfill %}") + "{% endcomponent %}")
     return "".join(out)
 
 
 def show(env):
-    return "(" + ",".join(str(env.get(k, "")) for k in ("x", "a", "b", "i")) + ")"
+    return "(" + ",".join(str(env.get(k, "")) for k in ("x", "a", "b", "i", "d.v")) + ")"
 
 
 def ev(expr, env):
@@ -55,12 +56,16 @@ def interp(nodes, env, mode, between=None):
             x = ev(n[1], env)
             data = {"x": x}
             inner = dict(data) if mode == "isolated" else dict(env, **data)
+            if mode == "isolated":
+                inner.pop("d.v", None)
             if n[2] is None:
                 slot = "D" + show(inner)
             else:
                 # fill content: isolated = lexical (the environment at the tag, extended by what is bound inside the fill);
                 # django = the component's data over that
                 fill_env = dict(env) if mode == "isolated" else dict(env, **data)
+                if len(n) > 3 and n[3]:
+                    fill_env["d.v"] = x          # the slot passes v=x; the alias `d` exposes it to THIS fill only
                 slot = interp(n[2], fill_env, mode)
             out.append("<S>" + show(inner) + "|" + slot + "</S>")
     return "".join(out)
@@ -72,6 +77,7 @@ def pages(depth):
             yield ("comp", xexpr, None)
             for body in bodies(d):
                 yield ("comp", xexpr, body)
+                yield ("comp", xexpr, body, True)
 
     def bodies(d):
         yield [("print",)]
@@ -113,7 +119,7 @@ def worker(job):
     from django_components import Component, registry
 
     class Show(Component):
-        template = "{% load component_tags %}<S>({{ x }},{{ a }},{{ b }},{{ i }})|{% slot 's' default %}D({{ x }},{{ a }},{{ b }},{{ i }}){% endslot %}</S>"
+        template = "{% load component_tags %}<S>({{ x }},{{ a }},{{ b }},{{ i }},{{ d.v }})|{% slot 's' default v=x %}D({{ x }},{{ a }},{{ b }},{{ i }},{{ d.v }}){% endslot %}</S>"
 
         def get_context_data(self, x=None):
             return {"x": x}
@@ -159,7 +165,7 @@ def run(repo, depth=1, procs=16):
     allf = [f for r in res for f in r["fails"]]
     unexpected = [f for f in allf if not f.get("known_finding")]
     known = [f for f in allf if f.get("known_finding")]
-    return {"space": f"all {len(progs)} pages (component `show` self-closing or with a fill printing x, a, b, i; with / for wrappers around the tag and inside the fill; `show` nested in its own fill to depth {depth + 1}) x 2 outer contexts x 2 modes",
+    return {"space": f"all {len(progs)} pages (component `show` self-closing or with a fill - with or without the slot-data alias data='d' - printing x, a, b, i and d.v; with / for wrappers around the tag and inside the fill; `show` nested in its own fill to depth {depth + 1}) x 2 outer contexts x 2 modes",
             "evaluations": sum(r["n"] for r in res), "unexpected_failures": len(unexpected), "known_finding_failures": len(known),
             "failures": unexpected[:6] + known[:1], "exhaustive": True}
 
